@@ -535,4 +535,74 @@ theorem eq_of_nodup_map {α β : Type} (f : α → β) (l : List α) (hnd : (l.m
     · subst hb1; exact absurd hab (hnd.1 a ha2)
     · exact ih hnd.2 ha2 hb2
 
+/-- every crawled leaf path below `path` continues with a key of the dict -/
+theorem mem_leafPaths_head (path : List Key) (l : KVs) (q : List Key) (h : q ∈ leafPaths path l) :
+    ∃ k r, q = path ++ k :: r ∧ k ∈ keys l := by
+  fun_induction leafPaths path l with
+  | case1 path => simp at h
+  | case2 path k x rest ih =>
+    rcases List.mem_cons.mp h with h1 | h2
+    · exact ⟨k, [], by simp [h1], by simp [keys_cons]⟩
+    · obtain ⟨k', r, hq, hk⟩ := ih h2
+      exact ⟨k', r, hq, by rw [keys_cons]; exact List.mem_cons_of_mem _ hk⟩
+  | case3 path k d rest ih1 ih2 =>
+    rcases List.mem_append.mp h with h1 | h2
+    · obtain ⟨k', r, hq, _⟩ := ih1 h1
+      exact ⟨k, k' :: r, by simp [hq], by simp [keys_cons]⟩
+    · obtain ⟨k', r, hq, hk⟩ := ih2 h2
+      exact ⟨k', r, hq, by rw [keys_cons]; exact List.mem_cons_of_mem _ hk⟩
+
+/-- in a well-formed dict the crawl visits every leaf path once -/
+theorem leafPaths_nodup (c : KVs) (hw : WF c) (path : List Key) : (leafPaths path c).Nodup := by
+  induction hw generalizing path with
+  | @mk c hnd _ ih =>
+    have aux : ∀ (l : KVs), (keys l).Nodup → (∀ e ∈ l, e ∈ c) → (leafPaths path l).Nodup := by
+      intro l
+      induction l with
+      | nil => intro _ _; simp [leafPaths]
+      | cons hd tl ihl =>
+        obtain ⟨k, v⟩ := hd
+        intro hndl hsub
+        rw [keys_cons, List.nodup_cons] at hndl
+        have hsub' : ∀ e ∈ tl, e ∈ c := fun e he => hsub e (List.mem_cons_of_mem _ he)
+        have htl := ihl hndl.2 hsub'
+        have hdis : ∀ q ∈ leafPaths path tl, ∀ r, q ≠ path ++ k :: r := by
+          intro q hq r e
+          obtain ⟨k', r', hq', hk'⟩ := mem_leafPaths_head path tl q hq
+          rw [e] at hq'
+          have := List.append_cancel_left hq'
+          simp only [List.cons.injEq] at this
+          exact hndl.1 (this.1 ▸ hk')
+        cases v with
+        | leaf x =>
+          simp only [leafPaths, List.nodup_cons]
+          refine ⟨?_, htl⟩
+          intro hm
+          exact hdis _ hm [] rfl
+        | dict d =>
+          simp only [leafPaths]
+          have hl := lookup_of_mem_nodup hnd (hsub _ (List.mem_cons_self ..))
+          refine List.nodup_append.mpr ⟨ih k d hl (path ++ [k]), htl, ?_⟩
+          intro a ha b hb hab
+          subst hab
+          obtain ⟨k', r', hq', _⟩ := mem_leafPaths_head (path ++ [k]) d a ha
+          exact hdis a hb (k' :: r') (by simp [hq'])
+    exact aux c hnd (fun e he => he)
+
+theorem exists_ne_of_not_nodup_map {α β : Type} (f : α → β) (l : List α) (hl : l.Nodup)
+    (h : ¬ (l.map f).Nodup) : ∃ a ∈ l, ∃ b ∈ l, a ≠ b ∧ f a = f b := by
+  induction l with
+  | nil => simp at h
+  | cons x tl ih =>
+    rw [List.nodup_cons] at hl
+    simp only [List.map_cons, List.nodup_cons, List.mem_map] at h
+    by_cases hx : ∃ y, y ∈ tl ∧ f y = f x
+    · obtain ⟨y, hy, hxy⟩ := hx
+      refine ⟨x, List.mem_cons_self .., y, List.mem_cons_of_mem _ hy, ?_, hxy.symm⟩
+      intro e; subst e; exact hl.1 hy
+    · have h' : ¬ (tl.map f).Nodup := fun hn => h ⟨hx, hn⟩
+      obtain ⟨a, ha, b, hb, hab⟩ := ih hl.2 h'
+      exact ⟨a, List.mem_cons_of_mem _ ha, b, List.mem_cons_of_mem _ hb, hab⟩
+
+
 end Inv
